@@ -116,8 +116,7 @@ class SequenceIterator(types.Recoverable, Iterator[_T]):
 
   def __init__(self, config: SequenceDataSource):
     self._index = config.start
-    iter_ = iter_utils.iter_ignore_error if config.ignore_error else iter
-    self._it = iter_(config.data[config.start : config.end])
+    self._it = iter(config.data[config.start : config.end])
     self.config = config
 
   def from_state(self, shard_state: ShardConfig) -> Self:
@@ -133,9 +132,23 @@ class SequenceIterator(types.Recoverable, Iterator[_T]):
 
   def __next__(self) -> _T:
     """Iterates the data source given a shard index."""
-    result = next(self._it)
-    self._index += 1
-    return result
+    while True:
+      try:
+        result = next(self._it)
+      except StopIteration:
+        raise
+      except Exception as e:  # pylint: disable=broad-exception-caught
+        # A failed read consumes its position too (the underlying iterator has
+        # moved past it): the recorded position must not lag behind, otherwise
+        # restoring from `state` repeats elements.
+        self._index += 1
+        if self.config.ignore_error and isinstance(
+            e, iter_utils.IGNORE_ERROR_TYPES
+        ):
+          continue
+        raise
+      self._index += 1
+      return result
 
   def __iter__(self) -> Self:
     """Iterates the data source given a shard index."""
@@ -209,9 +222,23 @@ class DataIterator(types.Recoverable, Iterator[_T]):
     while self._index % num_shards != shard_index:
       _ = next(self._it)
       self._index += 1
-    result = next(self._it)
-    self._index += 1
-    return result
+    while True:
+      try:
+        result = next(self._it)
+      except StopIteration:
+        raise
+      except Exception as e:  # pylint: disable=broad-exception-caught
+        # A failed read consumes its position too (the underlying iterator has
+        # moved past it): the recorded position must not lag behind, otherwise
+        # restoring from `state` repeats elements.
+        self._index += 1
+        if self.config.ignore_error and isinstance(
+            e, iter_utils.IGNORE_ERROR_TYPES
+        ):
+          continue
+        raise
+      self._index += 1
+      return result
 
   def __iter__(self) -> Self:
     return self
